@@ -160,12 +160,13 @@ structure SideSt where
   results : List Entry                   -- ghost: what each of this side's waiters was given
   dropped : List Nat                     -- ghost: seqs of responses received with no waiter registered
   injected : List Entry                  -- ghost: hand-built response frames written towards this side
+  undecodable : List Nat                 -- ghost: seqs of responses delivered as "could not be decoded here"
   dead : Bool                            -- an exception other than EOFError has left `serve()`
   deriving Repr
 
 def SideSt.init (seq0 : Nat) : SideSt :=
   { seq := seq0, callbacks := [], stack := [], inbox := [], issued := [], executed := [], answered := [],
-    abandoned := [], results := [], dropped := [], injected := [], dead := false }
+    abandoned := [], results := [], dropped := [], injected := [], undecodable := [], dead := false }
 
 abbrev Wire := List (Side × Msg)
 
@@ -224,6 +225,9 @@ inductive Act where
   | await (s : Nat)
   /-- `serve()`: receive the next message and `_dispatch` it -/
   | deliver
+  /-- `serve()`: receive the next message, a RESPONSE whose payload this side cannot decode (`_unbox` /
+  `_unbox_exc` raises: an exception class that cannot be rebuilt, a reference this side no longer knows) -/
+  | deliverFail
   /-- the request being handled at the top of the stack leaves its `try:` suite with outcome `o` -/
   | finish (o : Outcome) (val : Nat)
   /-- a hand-built response frame is written into the stream towards this side -/
@@ -236,7 +240,7 @@ structure Ev where
   deriving DecidableEq, Repr
 
 /-- one event at side `x` (`me`), its peer being `pr`; `none` = not enabled -/
-def lstep (x : Side) (me pr : SideSt) (w : Wire) : Act → Option (SideSt × SideSt × Wire)
+def lstepWith (guarded : Bool) (x : Side) (me pr : SideSt) (w : Wire) : Act → Option (SideSt × SideSt × Wire)
   | .issue k =>
     if me.dead || pr.dead then none else
     some ({ me with seq := me.seq + 1,
@@ -275,6 +279,32 @@ def lstep (x : Side) (me pr : SideSt) (w : Wire) : Act → Option (SideSt × Sid
                         stack := unwind (unregister s me.callbacks) me.stack }, pr, w)
       else
         some ({ me with inbox := rest, dropped := me.dropped ++ [s] }, pr, w)
+  | .deliverFail =>
+    if me.dead || pr.dead then none else
+    if !canServe me.stack then none else
+    match me.inbox with
+    | .resp k s v :: rest =>
+      if guarded then
+        -- `_deliver_response`: `try: obj = decode(args)  except Exception: is_exc, obj = True, <that error>`, then
+        -- `_seq_request_callback` as for any response: the waiter under `s` gets its answer (as an error)
+        if registered me.callbacks s then
+          some ({ me with inbox := rest,
+                          callbacks := unregister s me.callbacks,
+                          results := me.results ++ [(s, k, v)],
+                          undecodable := me.undecodable ++ [s],
+                          stack := unwind (unregister s me.callbacks) me.stack }, pr, w)
+        else
+          some ({ me with inbox := rest, dropped := me.dropped ++ [s] }, pr, w)
+      else
+        -- without the guard: `obj = self._unbox(args)` raises before `_seq_request_callback` is reached; the
+        -- message is consumed, nobody is given anything, the waiter stays registered, and the exception
+        -- leaves `serve()` into whichever wait loop (or serve loop) was serving
+        some ({ me with inbox := rest,
+                        stack := (match me.stack with
+                          | .waiting _ :: below => below
+                          | st => st),
+                        dead := me.stack.isEmpty }, pr, w)
+    | _ => none
   | .finish o v =>
     if me.dead || pr.dead then none else
     match me.stack with
@@ -298,6 +328,24 @@ def lstep (x : Side) (me pr : SideSt) (w : Wire) : Act → Option (SideSt × Sid
     if me.dead || pr.dead then none else
     some ({ me with inbox := me.inbox ++ [.resp k s v], injected := me.injected ++ [(s, k, v)] }, pr,
           w ++ [(x.peer, .resp k s v)])
+
+/-- the machine of the code as it is: whether `_dispatch` guards the decoding of a response is measured on
+the live class by the constants generator (`Gen.Proto.responseDecodeGuarded`) -/
+def lstep : Side → SideSt → SideSt → Wire → Act → Option (SideSt × SideSt × Wire) :=
+  lstepWith Gen.Proto.responseDecodeGuarded
+
+/-- one event of the machine with / without the guard around the decoding of responses (for the theorems that compare
+the two; `step` below is the one the measured constant selects) -/
+def stepWith (guarded : Bool) (s : St) (e : Ev) : Option St :=
+  match lstepWith guarded e.side (s.get e.side) (s.get e.side.peer) s.wire e.act with
+  | some (me, pr, w) => some (St.put e.side me pr w)
+  | none => none
+
+def runWith (guarded : Bool) (s : St) : List Ev → Option St
+  | [] => some s
+  | e :: es => match stepWith guarded s e with
+    | some s' => runWith guarded s' es
+    | none => none
 
 def step (s : St) (e : Ev) : Option St :=
   match lstep e.side (s.get e.side) (s.get e.side.peer) s.wire e.act with
